@@ -62,18 +62,18 @@ CHECK = {
     "lean_exes": ["p3r_driver_c11"],
     "theorems": ["P3R.C11.laneAdd_iff", "P3R.C11.laneEq_iff", "P3R.C11.laneMulAdd_iff", "P3R.C11.laneBool_iff",
                  "P3R.C11.hornerSingle_iff", "P3R.C11.lane_zero_sel", "P3R.C11.extMulBinomial_eval_D2",
-                 "P3R.C11.extMulBinomial_eval_D4", "P3R.C11.extMulQuintic_eval", "P3R.C11.packed2_iff", "P3R.C11.packed3_iff",
+                 "P3R.C11.extMulBinomial_eval_D4", "P3R.C11.extMulBinomial_eval_D5", "P3R.C11.extMulBinomial_eval_D8", "P3R.C11.extMulQuintic_eval", "P3R.C11.packed2_iff", "P3R.C11.packed3_iff",
                  # every arity: the `while s < kk` legs of the model (packedLegs, D = 1) accept exactly chains of single steps
                  "P3R.C11.packedLegs_one_succ", "P3R.C11.packedLegs_sound", "P3R.C11.packedLegs_complete"],
     "run": run,
     "trusted_base": ["Const/Public tables have no row constraints (interaction shape only, covered by C09); recompose and Poseidon circuit AIRs are not modelled in Lean (see DESIGN)"],
-    "assumptions": ["packed Horner legs are proved for every arity at D = 1 (packedLegs_sound/complete); for D > 1 and for the D = 8 extension product the tie is the value-exact correspondence and the tamper oracle only"],
+    "assumptions": ["packed Horner legs are proved for every arity at D = 1 (packedLegs_sound/complete); for packed legs at D > 1 the tie is the value-exact correspondence and the tamper oracle only"],
 }
 
 MANIFEST_ENTRY = {
     "property_id": "C11", "quick_cmd": "bin/check C11 --tier quick", "thorough_cmd": "bin/check C11 --tier thorough",
     "evidence_file": "evidence/C11.json", "replay_cmd_template": "bin/check C11 --replay {path}", "engine": "lean-models",
     "technique": "Lean 4 iff-theorems over a model of AluAir::eval + value-exact correspondence with a recording AirBuilder",
-    "level_claimed": {"category": "proof", "text": "per-kind row iff theorems (all D), extension product specs (D=2,4, quintic), packed Horner legs of every arity (D=1: packedLegs_sound / packedLegs_complete over the model function itself); the model's constraint and interaction values equal the real AluAir::eval's on random windows for every configuration; relation oracles on structured rows and tampered scheduled traces.", "design_ref": "4/C11"},
+    "level_claimed": {"category": "proof", "text": "per-kind row iff theorems (all D), extension product specs (binomial D=2,4,5,8, quintic trinomial), packed Horner legs of every arity (D=1: packedLegs_sound / packedLegs_complete over the model function itself); the model's constraint and interaction values equal the real AluAir::eval's on random windows for every configuration; relation oracles on structured rows and tampered scheduled traces.", "design_ref": "4/C11"},
     "level_note": "ALU table only is modelled; Poseidon/recompose AIRs not modelled; packed arities at D>1 by correspondence only",
 }
